@@ -55,7 +55,7 @@ TStop == /\ l <= N /\ ~ign /\ E.e \in {"Hang", "Abort"}
 TCall ==
   /\ IsEvent("Call") /\ ~ign
   /\ LET o == [k |-> E.op, n |-> W(E.n), take |-> E.take] IN
-     IF E.op \notin Supported
+     IF E.op \notin Supported \/ E.pa > 0      \* low-level calls and panicking closures are not modelled here
        THEN l' = l + 1 /\ ign' = TRUE /\ UNCHANGED <<vars, run, expv, div, cnt>>
      ELSE IF pc[E.t] = "idle" /\ alive /\ (E.op = "bnext" => buf[E.t] > 0 /\ buf[E.t] = W(E.n))
        THEN /\ CallBody(E.t, IF E.op = "bnext" THEN [o EXCEPT !.n = 0] ELSE o)
